@@ -1217,7 +1217,7 @@ void KMeans(matrix* m,
   UIVectorResize(cluster_labels, m->row);
   
   it = 0;
-  while(shouldStop(centroids, oldcentroids, it, 100) == 0)
+  do /* at least one assignment step: the zero-filled oldcentroids must not be mistaken for convergence */
   {
     #ifdef DEBUG
     clock_t t = clock();
@@ -1247,7 +1247,7 @@ void KMeans(matrix* m,
     printf("getCentroids: %f\n", ((double)t)/CLOCKS_PER_SEC);
     #endif
     it++;
-  }
+  } while(shouldStop(centroids, oldcentroids, it, 100) == 0);
   if(_centroids_ == NULL){
     DelMatrix(&centroids);
   }
